@@ -238,6 +238,144 @@ ORIGIN_VALUES = [
 ]
 
 
+class _DictSession(dict):
+    """minimal session for the application-level probe (SessionCSRFStoragePolicy only uses get / __setitem__)"""
+
+
+EXTRA_VIEW_OPTIONS = ['none', 'request_method=<method>', 'request_method=(<method>, PUT)', 'xhr', 'name (no route)', 'attr', 'decorator',
+                      'renderer=json', 'renderer=string', 'permission', 'http_cache', 'wrapper', 'mapper']
+
+
+def probe_viewopts(api):
+    """the same option set and request through a REAL application (Configurator.add_view + Router), without and with each
+    OTHER view option csrf_view can see in info.options / the predicates; the request is one the predicates admit"""
+    import types
+    from pyramid.response import Response
+    from pyramid.tweens import EXCVIEW
+    from pyramid.config.security import DefaultCSRFOptions  # noqa: F401  (import check only)
+    rows = []
+
+    def spy_factory(handler, registry):
+        def spy(request):
+            response = handler(request)
+            exc = getattr(request, 'exception', None)
+            request.environ['probe.exc'] = type(exc).__name__ if exc is not None else None
+            return response
+        return spy
+    mod = types.ModuleType('verif_c12_probe_spy')
+    mod.spy_factory = spy_factory
+    sys.modules['verif_c12_probe_spy'] = mod
+
+    def run(explicit, d, req, opt):
+        calls = [0]
+
+        def go():
+            config = api.Configurator()
+            config.set_session_factory(lambda request: _DictSession({} if req['stored'] is None else {'_csrft_': req['stored']}))
+            pol = api.csrf.SessionCSRFStoragePolicy()
+            pol._token_factory = lambda: FRESH
+            config.set_csrf_storage_policy(pol)
+            if d is not None:
+                def cb_true(request):
+                    calls[0] += 1
+                    return True
+
+                def cb_false(request):
+                    calls[0] += 1
+                    return False
+                cb = {'none': None, 'true': cb_true, 'false': cb_false}[d['callback']]
+                config.set_default_csrf_options(require_csrf=d['require'], token=d['token'], header=d['header'], safe_methods=tuple(d['safe']),
+                                                check_origin=d['check_origin'], allow_no_origin=d['allow_no_origin'], callback=cb)
+            renderer = {'renderer=json': 'json', 'renderer=string': 'string'}.get(opt)
+
+            def mark(request):
+                request.environ['probe.ran'] = request.environ.get('probe.ran', 0) + 1
+                return {'ran': 1} if renderer == 'json' else 'ran' if renderer == 'string' else Response('ran')
+
+            def body(context, request):
+                return mark(request)
+
+            class BodyClass:
+                def __init__(self, context, request):
+                    self.request = request
+
+                def meth(self):
+                    return mark(self.request)
+            kw = {'require_csrf': explicit}
+            view = body
+            if opt == 'request_method=<method>':
+                kw['request_method'] = req['method']
+            elif opt == 'request_method=(<method>, PUT)':
+                kw['request_method'] = (req['method'], 'PUT')
+            elif opt == 'xhr':
+                kw['xhr'] = True
+            elif opt == 'attr':
+                view, kw['attr'] = BodyClass, 'meth'
+            elif opt == 'decorator':
+                kw['decorator'] = lambda v: (lambda context, request: v(context, request))
+            elif renderer:
+                kw['renderer'] = renderer
+            elif opt == 'permission':
+                kw['permission'] = 'view'
+            elif opt == 'http_cache':
+                kw['http_cache'] = 3600
+            elif opt == 'wrapper':
+                kw['wrapper'] = 'wrap'
+                config.add_view(lambda context, request: request.wrapped_response, name='wrap', require_csrf=False)
+            elif opt == 'mapper':
+                class PlainMapper:
+                    def __init__(self, **kwargs):
+                        pass
+
+                    def __call__(self, v):
+                        return lambda context, request: v(context, request)
+                kw['mapper'] = PlainMapper
+            elif opt not in ('none', 'name (no route)'):
+                raise ValueError('unknown option ' + opt)
+            if opt == 'name (no route)':
+                config.add_view(view, name='p', **kw)
+            else:
+                config.add_route('p', '/p')
+                config.add_view(view, route_name='p', **kw)
+            config.add_tween('verif_c12_probe_spy.spy_factory', over=EXCVIEW)
+            app = config.make_wsgi_app()
+            env = _environ(req)
+            if opt == 'xhr':
+                env['HTTP_X_REQUESTED_WITH'] = 'XMLHttpRequest'
+            st = {}
+            b''.join(app(env, lambda status, headers, exc_info=None: st.update(status=status)))
+            code, ran, exc = int(st['status'].split()[0]), env.get('probe.ran', 0), env.get('probe.exc')
+            if code == 200 and ran == 1 and exc is None:
+                return 'ran'
+            if code == 400 and ran == 0 and exc in ('BadCSRFToken', 'BadCSRFOrigin'):
+                return 'badtoken' if exc == 'BadCSRFToken' else 'badorigin'
+            return 'unknown:status %s ran %s exc %s' % (code, ran, exc)
+        try:
+            out = go()
+        except Exception as e:
+            out = 'unknown:' + type(e).__name__
+        q = req
+        if opt == 'xhr':
+            q = dict(req, environ=dict(req['environ'], HTTP_X_REQUESTED_WITH='XMLHttpRequest'))
+        rows.append({'opt': opt, 'explicit': repr(explicit), 'exc_only': False, 'defaults': d, 'trusted': [], 'req': q, 'out': out, 'calls': calls[0]})
+
+    v = lambda **kw: dict(DEF_STD, **kw)
+    option_sets = [(True, None), (None, v()), (None, v(safe=[])), (None, v(safe=['GET', 'HEAD'])), (None, v(safe=['get', 'head'])),
+                   (None, v(safe=['GET', 'HEAD', 'OPTIONS', 'TRACE', 'POST'])), (True, v(require=False, callback='false')), (None, v(token='tok', header=None, check_origin=False))]
+    for explicit, d in option_sets:
+        for method in ('GET', 'HEAD', 'OPTIONS', 'TRACE', 'POST'):
+            for tokenv in (None, 'abc123'):
+                env = {'HTTP_X_CSRF_TOKEN': tokenv} if tokenv else {}
+                req = _req(method=method, env=env, form=[['tok', tokenv]] if tokenv and method == 'POST' else [])
+                for opt in EXTRA_VIEW_OPTIONS[:3]:
+                    run(explicit, d, req, opt)
+        for req in (_req(), _req(env={'HTTP_X_CSRF_TOKEN': 'abc123'}, form=[['tok', 'abc123']]), _req(method='OPTIONS'),
+                    _req(scheme='https', env={'HTTP_X_CSRF_TOKEN': 'abc123', 'HTTP_ORIGIN': 'https://evil.example'}, form=[['tok', 'abc123']])):
+            for opt in EXTRA_VIEW_OPTIONS[3:]:
+                run(explicit, d, req, opt)
+    return rows
+
+
 def probe_origin(api):
     rows = []
 
@@ -367,7 +505,7 @@ def facts(src_root):
     except Exception as e:
         api = None
         out['setup_error'] = ''.join(traceback.format_exception_only(type(e), e)).strip()
-    for name, fn in (('view', probe_view), ('origin', probe_origin), ('token', probe_token), ('policy', probe_policy),
+    for name, fn in (('view', probe_view), ('viewopts', probe_viewopts), ('origin', probe_origin), ('token', probe_token), ('policy', probe_policy),
                      ('domain', probe_domain), ('differ', probe_differ)):
         try:
             if api is None:
@@ -384,7 +522,7 @@ def facts(src_root):
         out['options_defaults'], out['options_store'] = None, [('unknown', 'unknown')]
         out['options_error'] = ''.join(traceback.format_exception_only(type(e), e)).strip()
     summary.clear()
-    summary.update({k: (len(v) if isinstance(v, list) else v) for k, v in out.items() if k in ('view', 'origin', 'token', 'policy', 'domain', 'differ') or k.endswith('_error')})
+    summary.update({k: (len(v) if isinstance(v, list) else v) for k, v in out.items() if k in ('view', 'viewopts', 'origin', 'token', 'policy', 'domain', 'differ') or k.endswith('_error')})
     summary['method'] = 'probed by running the code under test (no AST matching)'
     return out
 
@@ -476,6 +614,12 @@ structure ViewRow where
   callbackCalls : Nat
 deriving Repr
 
+/-- one WSGI request through a real application whose view was registered with one EXTRA view option -/
+structure OptRow where
+  opt : String
+  row : ViewRow
+deriving Repr
+
 /-- one call of `check_csrf_origin`; `none` = the argument was omitted -/
 structure OriginRow where
   req : ReqRow
@@ -537,6 +681,10 @@ def generate(src_root):
     L += _table('viewRows', 'ViewRow', f['view'],
                 lambda r: '⟨%s, %s, %s, %s, %s, %s, %d⟩' % (_ls(r['explicit']), _lb(r['exc_only']), _ldef(r['defaults']), _ll(r['trusted']), _lreq(r['req']), _ls(r['out']), r['calls']),
                 '⟨"unknown", false, none, [], %s, "unknown", 0⟩' % UNKNOWN_REQ)
+    vrow = lambda r: '⟨%s, %s, %s, %s, %s, %s, %d⟩' % (_ls(r['explicit']), _lb(r['exc_only']), _ldef(r['defaults']), _ll(r['trusted']), _lreq(r['req']), _ls(r['out']), r['calls'])
+    L += _table('optRows', 'OptRow', f['viewopts'], lambda r: '⟨%s, %s⟩' % (_ls(r['opt']), vrow(r)),
+                '⟨"unknown", ⟨"unknown", false, none, [], %s, "unknown", 0⟩⟩' % UNKNOWN_REQ)
+    L += ['', '/-- the extra view options probed -/', 'def extraViewOptions : List String := ' + _ll(EXTRA_VIEW_OPTIONS)]
     L += _table('originRows', 'OriginRow', f['origin'],
                 lambda r: '⟨%s, %s, %s, %s, %s, %s, %s, %s⟩' % (_lreq(r['req']), _lol(r['trusted_arg']), _ll(r['settings']), _lob(r['allow']), _lob(r['raises']), _ls(r['out']),
                                                                 _lol(r['left']), _ll(r['settings_after'])),
